@@ -25,7 +25,14 @@ def p_case(rng):
                 term.data['label'] = "PRELS"
     tag_uids(t)
     prefix = [("root_attach", {})] if rng.random() < 0.5 else []
+    if rng.random() < 0.15:
+        # trees that other transformations have produced are trees like any other: binarized first
+        prefix = prefix + [("negra_mark_heads", {}), ("binarize", {})]
     _, _, base = tx.run_impl(prefix, tx.fresh(t, 1))
+    if base is None:
+        prefix = []
+        base = tx.fresh(t, 1)
+    tag_uids(base)          # nodes created by the prefix get identities too
     a = proto.enc_tree(base)
     name = rng.choice(["punctuation_verylow", "punctuation_root", "punctuation_symetrify"])
     params = {"relc": "PRELS"} if name == "punctuation_symetrify" and rng.random() < 0.4 else {}
